@@ -31,6 +31,8 @@ DATASETS = {
     'pairwise-3mr': dict(cols=5, rows=900, B=290, heuristic='MI-numba-3mr', target_only='False', cap=10 ** 6, cards=[2, 4, 20, 300]),
     'target-randomized-interactions': dict(cols=5, rows=1200, B=280, heuristic='MI-numba-randomized', target_only='True', cap=7, cards=[2, 3, 50, 700], interaction_order=2),
     'pairwise-coverage-many-batches': dict(cols=7, rows=1500, B=240, heuristic='max-value-coverage', target_only='False', cap=20, cards=[2, 6, 60, 600]),
+    # a final partial batch (> 1024 rows, shorter than the full ones): per-process buffers sized by an earlier batch would show here
+    'tail-batch': dict(cols=5, rows=2650, B=1500, heuristic='MI-numba-randomized', target_only='False', cap=10 ** 6, cards=[2, 6, 30, 300]),
     'target-randomized-subsampled': dict(cols=12, rows=2000, B=300, heuristic='MI-numba-randomized', target_only='True', cap=10 ** 6, cards=[2, 10, 200, 2000], subsampling=2, ratio=0.6),
 }
 
@@ -38,7 +40,7 @@ DATASETS = {
 def plan(tier, seed):
     shards = []
     if tier == 'quick':
-        sets = ['pairwise-randomized-cap', 'target-coverage', 'target-randomized-interactions', 'pairwise-3mr', 'target-randomized-subsampled']
+        sets = ['pairwise-randomized-cap', 'target-coverage', 'target-randomized-interactions', 'pairwise-3mr', 'target-randomized-subsampled', 'tail-batch']
         pools, dseeds = [1, 2, 3, 8, 16], [0, 1]
     else:
         sets = list(DATASETS)
